@@ -9,6 +9,7 @@ import (
 	"path/filepath"
 	"sort"
 	"strings"
+	"sync"
 	"testing"
 	"testing/synctest"
 	"time"
@@ -23,7 +24,7 @@ import (
 
 var names = []string{"alice", "bob", "carol", "dave"}
 
-const nKeys = 4      // universe keys k0..k3
+const nKeys = 4       // universe keys k0..k3
 const strangerKey = 5 // a key never given to anybody: must always be refused
 
 // ---- plan (everything a case does is drawn first, then executed inside a fake-time bubble)
@@ -39,9 +40,9 @@ type fileSpec struct {
 type step struct {
 	Op     string    `json:"op"` // add update delete reload restart
 	Name   string    `json:"name,omitempty"`
-	Key    int       `json:"key"`               // universe index; <0: wrong-length key (-1: one short, -2: one long, -3: other cipher's length, -4: empty)
-	File   *fileSpec `json:"file,omitempty"`    // reload: edit the file to this first
-	Settle bool      `json:"settle"`            // let the 5 s save debounce elapse after the step and compare the file too
+	Key    int       `json:"key"`            // universe index; <0: wrong-length key (-1: one short, -2: one long, -3: other cipher's length, -4: empty)
+	File   *fileSpec `json:"file,omitempty"` // reload: edit the file to this first
+	Settle bool      `json:"settle"`         // let the 5 s save debounce elapse after the step and compare the file too
 }
 
 type plan struct {
@@ -396,7 +397,7 @@ func (x *executor) run() {
 				// and the store it will save cannot be loaded again. Show the consequence.
 				sig := "duplicate-upsk-accepted"
 				detail := x.dupConsequence(s, holder, key)
-				if !ev.IsKnown("C08", sig) {
+				if !isKnown(sig) {
 					x.out.violation = x.failf(sig, "%s answered %d although %s already has that key. %s", desc, code, holder, detail)
 					return
 				}
@@ -581,7 +582,7 @@ func (x *executor) repairAfterDup(s step, holder string, key []byte) bool {
 
 func runPlan(t *testing.T, p plan) *outcome {
 	out := &outcome{labels: map[string]bool{}}
-	dir, err := os.MkdirTemp(workDir(), "c08-")
+	dir, err := os.MkdirTemp(workDir(), "verif-c08-")
 	if err != nil {
 		out.violation = "HARNESS tempdir: " + err.Error()
 		return out
@@ -592,11 +593,13 @@ func runPlan(t *testing.T, p plan) *outcome {
 	return out
 }
 
+var scratchOnce sync.Once
+var scratchBase string
+
+// workDir is where per-case store directories are created (see credx.ScratchBase).
 func workDir() string {
-	if d := os.Getenv("VERIF_WORK"); d != "" {
-		return d
-	}
-	return os.TempDir()
+	scratchOnce.Do(func() { scratchBase = credx.ScratchBase("verif-c08-") })
+	return scratchBase
 }
 
 // ---- the property
@@ -613,7 +616,7 @@ var recSeq = ev.New("C08", "sequential-plans",
 
 func finishCase(rec *ev.Recorder, p plan, out *outcome) {
 	if out.known != "" {
-		rec.KnownHit(out.known)
+		rec.KnownHit(listedSig(out.known))
 	}
 	labels := []string{"mode/" + p.Mode.String(), fmt.Sprintf("keylen/%d", p.KeyLen)}
 	for l := range out.labels {
